@@ -30,6 +30,9 @@ def world(run, cfg):
     cols = list('abcd')[:cfg.get('nt', 3)]
     nd = cfg.get('nd', 4)
     dts = dates(nd)
+    if cfg.get('gap'):
+        # business-day style index with a weekend before the last date: now - 1 day is not an index date
+        dts = pd.DatetimeIndex(['2010-01-06', '2010-01-07', '2010-01-08', '2010-01-11'][-nd:]) if nd <= 4 else pd.DatetimeIndex(['2010-01-05', '2010-01-06', '2010-01-07', '2010-01-08', '2010-01-11'])
     mask = MASKS[cfg.get('mask', 'none')]
     cells = {}
 
@@ -97,6 +100,11 @@ def h_basic(run, cfg):
             member_iff(run, c, s.temp['selected'], (c in tick) and tradable(row[c], nd, neg), 'selectthese')
     elif algo == 'SelectWhere':
         sig = pd.DataFrame({c: [bool((i + k) % 2) for i in range(len(dts))] for k, c in enumerate(cols)}, index=dts)
+        if cfg.get('sig_nan'):
+            # a signal with holes (e.g. a shifted rolling comparison): NaN is not True
+            sig = sig.astype(object)
+            sig.iloc[-1, 0] = float('nan')
+            sig.iloc[-1, 1] = True
         if cfg.get('sig_missing_now'):
             sig = sig.iloc[:-1]
             s.temp['selected'] = ['keepme']
@@ -105,7 +113,8 @@ def h_basic(run, cfg):
             run.check(s.temp['selected'] == ['keepme'], 'selectwhere-no-signal-row-leaves-selection')
         else:
             for c in cols:
-                member_iff(run, c, s.temp['selected'], bool(sig[c][now]) and tradable(row[c], nd, neg), 'selectwhere')
+                sv = sig[c][now]
+                member_iff(run, c, s.temp['selected'], (sv is True or sv == True) and not isnan(sv) and tradable(row[c], nd, neg), 'selectwhere')
     elif algo == 'SelectRandomly':
         prior = prior_subset(run, cols)
         if cfg.get('with_prior', 1):
@@ -181,6 +190,8 @@ def h_rank(run, cfg):
         except ZeroDivisionError:
             run.end('zero-price-in-window')
         win = [d for d in dts if t0 - pd.DateOffset(days=lb) <= d <= t0]
+        if not win:
+            run.end('empty-window')
         stat_spec = {}
         for c in base:
             a, b = data[c][win[-1]], data[c][win[0]]
@@ -289,5 +300,11 @@ def plan(tier):
                 tasks.append(dict(harness='rank', cfg=dict(nt=nt, nd=nd, mask=mask, stat='totalreturn', lookback=lb, lag=lag, n=2, asc=0), opts=opts))
                 tasks.append(dict(harness='rank', cfg=dict(nt=nt, nd=nd, mask=mask, stat='momentum', lookback=lb, lag=lag, n=1, asc=lag), opts=opts))
         tasks.append(dict(harness='rank', cfg=dict(nt=nt, nd=nd, mask=mask, stat='setstat', lag=1, n=2, asc=0), opts=opts))
+        for lb in (3, 4):
+            for lag in (1, 2):
+                tasks.append(dict(harness='rank', cfg=dict(nt=nt, nd=nd, mask=mask, stat='totalreturn', lookback=lb, lag=lag, n=2, asc=0, gap=1), opts=opts))
+                tasks.append(dict(harness='rank', cfg=dict(nt=nt, nd=nd, mask=mask, stat='momentum', lookback=lb, lag=lag, n=1, asc=0, gap=1), opts=opts))
+        tasks.append(dict(harness='basic', cfg=dict(nt=nt, nd=nd, mask=mask, no_data=0, negative=0, algo='SelectWhere', sig_nan=1), opts=opts))
+        tasks.append(dict(harness='basic', cfg=dict(nt=nt, nd=nd, mask=mask, no_data=0, negative=0, algo='SelectHasData', lookback=3, min_count=2, with_prior=0, gap=1), opts=opts))
     tasks.append(dict(harness='names', cfg={}, opts=opts))
     return tasks
